@@ -232,7 +232,7 @@ def _remove_pockets_on_one_side_of_the_pinch(
         # No heating or cooling required
         return pt, hot_pinch_loc, cold_pinch_loc
 
-    for _ in range(i, pinch_loc, sgn):
+    while (pinch_loc - i) * sgn > 0:
         di = sgn
         n_int_added = 0
         if H_vals[i] < H_vals[i + sgn] - tol:
@@ -254,6 +254,7 @@ def _remove_pockets_on_one_side_of_the_pinch(
                 if is_above_pinch:
                     hot_pinch_loc += n_int_added
                     cold_pinch_loc += n_int_added
+                    pinch_loc += n_int_added
                 else:
                     i_0 += n_int_added
 
